@@ -761,6 +761,36 @@ var ruleHTMLOrder = &core.Rule{ID: "R12.4", Min: 3,
 				}
 			}
 		}
+		// early-return form: `if HasPrefix(label, "utf-16") { return "utf-8" }; return label`
+		if !ok165 {
+			for _, r := range core.Returns(pre) {
+				if v, isK := core.ConstString(r.Results[0]); !isK || v != "utf-8" {
+					continue
+				}
+				for _, de := range core.DominatingConds(r.Block()) {
+					cond, val := core.StripNot(de.Cond, de.Val)
+					call, ok := cond.(*ssa.Call)
+					if !ok || !val || !core.CalleeIs(&call.Call, "strings", "HasPrefix") {
+						continue
+					}
+					if p, ok := core.ConstString(call.Call.Args[1]); !ok || p != "utf-16" {
+						continue
+					}
+					// on the other side of the same test the tested label itself is returned
+					for _, r2 := range core.Returns(pre) {
+						if r2.Results[0] != call.Call.Args[0] {
+							continue
+						}
+						for _, de2 := range core.DominatingConds(r2.Block()) {
+							c2, v2 := core.StripNot(de2.Cond, de2.Val)
+							if c2 == cond && !v2 {
+								ok165 = true
+							}
+						}
+					}
+				}
+			}
+		}
 		s.Check(ok165, core.FName(pre)+": utf-16* meta label maps to utf-8", c.Pos(pre.Pos()), "return is phi{label, \"utf-8\" under HasPrefix(label, \"utf-16\")}", "the prescan does not map utf-16 labels found in a meta to utf-8 (WHATWG: a meta cannot declare a 16-bit encoding)")
 		// R12.6: pragma decision table
 		pragmaTable(c, s, pre)
